@@ -142,6 +142,33 @@ pub fn wire(t: &ohkami::testing::TestingOhkami, method: &str, target: &[u8], hea
         };
         let mut wire: Vec<u8> = Vec::new();
         res.__verif_send(&mut wire).await;
+        if let Some(bad) = framing_error(method, &wire) { panic!("response framing: {bad}") }
         Ok(wire)
     }))
+}
+
+/// what every check that looks at a served response relies on: the message's own framing delimits exactly the bytes that were written
+/// (Content-Length = the number of body bytes, or chunked coding; no body for HEAD and 204)
+pub fn framing_error(method: &str, wire: &[u8]) -> Option<String> {
+    let end = wire.windows(4).position(|w| w == b"\r\n\r\n")?;
+    let (head, body) = (&wire[..end], &wire[end + 4..]);
+    let head = String::from_utf8_lossy(head);
+    let mut lines = head.split("\r\n");
+    let status: u16 = lines.next()?.split(' ').nth(1)?.parse().ok()?;
+    let (mut cl, mut chunked) = (None, false);
+    for l in lines {
+        if let Some((k, v)) = l.split_once(": ") {
+            if k.eq_ignore_ascii_case("content-length") { cl = Some(v.to_string()) }
+            if k.eq_ignore_ascii_case("transfer-encoding") && v == "chunked" { chunked = true }
+        }
+    }
+    if (100..200).contains(&status) || status == 304 { return None }          // content a user sets on 1xx / 304 is documented as the user's responsibility (C03)
+    if method == "HEAD" || status == 204 {
+        return (!body.is_empty()).then(|| format!("{} body bytes on a response that has no body ({method}, status {status})", body.len()))
+    }
+    if chunked { return cl.map(|c| format!("Content-Length {c} beside Transfer-Encoding: chunked")) }
+    match cl {
+        None => Some(format!("status {status} with neither Content-Length nor chunked coding")),
+        Some(c) => (c.parse::<usize>().ok() != Some(body.len())).then(|| format!("Content-Length {c} but {} body bytes follow", body.len())),
+    }
 }
